@@ -12,7 +12,7 @@ VOCAB = [
     "1e2", "1E2", "1e400", "1.0e400", "-", "+", "1e-400", "1e-2", "99999999999999999999", "-99999999999999999999", "9007199254740992",
     "length(", "count(", "match(", "search(", "value(", "typeof(", "isinstance(", "is(", "type(", "keys(", "foo(", " ", "\n", "\t",
     "\u00e9", "\U0001f600", "a", "b", "[?", "[*]", "[0]", "[-1]", "[1:2]", "[::-1]", "[::0]", "['a']", "@.a", "$.a", "_.a", "[1e2]", "[-]", "[+1]",
-    "[-:]", "[:-]", "1" * 4301, "7" * 400 + ".5", "a{99999999999}", "/a{99999999999}/", "(?a)(?u)a", "'(?a)(?u)a'", "(?i)", "(?x) a", "(?P<n>a)", "\\1", "(?<=a)b", "{1,2}", "{2,1}", "[z-a]", "\\u0041", "\\ud83d", "\\x", "'\\", "{", "}", "%", ";", "`", "=", "<=>", "\x00", "\x7f",
+    "[-:]", "[:-]", "1" * 4301, "7" * 400 + ".5", "a{99999999999}", "/a{99999999999}/", "(?a)(?u)a", "'(?a)(?u)a'", "(?i)", "(?x) a", "(?P<n>a)", "\\1", "(?<=a)b", "{1,2}", "{2,1}", "[z-a]", "\\u0041", "\\ud83d", "\\x", "\\8", "\\9", "\\400", "\\777", "\\g", "\\u{41}", "\\N{BULLET}", "'\\", "{", "}", "%", ";", "`", "=", "<=>", "\x00", "\x7f",
 ]
 TOKEN_RE = re.compile(r"""'(?:\\.|[^'\\])*'|"(?:\\.|[^"\\])*"|/(?:\\.|[^/\\])+/[a-z]*|-?\d+(?:\.\d+)?(?:[eE][+-]?\d+)?|[A-Za-z_]\w*\(?|\.\.|==|!=|<>|<=|>=|=~|&&|\|\||\s+|.""", re.S)
 
